@@ -149,8 +149,9 @@ SAFE_ATTRS = {
     # str / list / dict / set / date methods
     'lower', 'upper', 'strip', 'startswith', 'endswith', 'replace', 'split', 'join', 'get', 'keys', 'values', 'items', 'append', 'add', 'pop',
     'setdefault', 'strftime', 'weekday', 'fromisoformat', 'groups', 'group', 'extend',
-    # audited library entry points
-    'search', 'sub', 'compile', 'ratio', 'stdev', 'dump',
+    # audited library entry points (warnings.catch_warnings / filterwarnings: the filter list of the warnings module, no I/O - they PREVENT the
+    # printing and the source-file read a warning would cause)
+    'search', 'sub', 'compile', 'ratio', 'stdev', 'dump', 'catch_warnings', 'filterwarnings',
     # generator.close(): runs the finally blocks of the evaluator's own generator (no I/O: open() is outside every table)
     'close',
 }
